@@ -72,7 +72,7 @@ func c12(tier string) int {
 	}
 	sum.Samples = append(sum.Samples, sum2.Samples...)
 	ev := &hk.Evidence{PropertyID: "C12", Tier: tier, Level: "model_checking",
-		Coverage: sum.Coverage("all interleavings (unbounded) of writer and storing side for every split of a content of length <= N into <= M writes including empty ones, reader buffers 1/3/32K, plus 32K-boundary splits and storing-side failures; real internal/utils/async under the controlled scheduler"),
+		Coverage:    sum.Coverage("all interleavings (unbounded) of writer and storing side for every split of a content of length <= N into <= M writes including empty ones, reader buffers 1/3/32K, plus 32K-boundary splits and storing-side failures; real internal/utils/async under the controlled scheduler"),
 		Assumptions: []string{"the storing side is the io.Copy loop of content.Store reading from the readWriter"}}
 	return finish(rp, ev, budget)
 }
